@@ -577,3 +577,22 @@ def check_C18(tier, seed):
         print("VIOLATION property=C18 replay=%s  (undefined behaviour in the numerical library on a crafted generator state: %s)" % (rp, extra_viol[:300]))
         return 1
     return rcode
+
+
+def check_C20(tier, seed):
+    c = syscamp.Campaign("C20", tier, seed, own_ids=["C20"])
+    c.want_stats = True
+    c.trace_spec = ("StatsTrace.tla", "StatsTrace.cfg")
+    try:
+        c.build()
+        em = lambda r: {"batch": r.choice([1, 1, 2, 64]), "period": r.choice([0, 0, 30, 100000]), "threads": r.choice([1, 2, 3, 4]),
+                        "stop_at": r.choice([0, 0, 0, r.randrange(100, 3000)]), "term": r.choice([0, 0, 6])}
+        c.run(_models(tier, seed, ["mixed", "fanout", "ties", "sparse", "zerodelay", "single"], 8, 36, "small", "medium"), 6 if tier == "quick" else 14,
+              emphasis=em)
+        return c.finish(rule="generated models x thread counts x GVT periods (including a period so long that no round completes before the end: zero records) "
+                             "x stops; distinct by (model, configuration, schedule seed); the statistics file is parsed by an independent reader inside the harness "
+                             "and by the shipped rootsim_stats.py, every record compared with the counters accumulated from the observation points",
+                        assumptions=["timing fields of the records (processed time, checkpoint time, ...) are not constrained",
+                                     "single node (multi-rank files are produced through MPI data messages, see C02)"])
+    finally:
+        c.close()
